@@ -19,7 +19,7 @@ ID = "C11"
 LEVEL = "exploration"
 EXHAUSTIVE = False
 SHARDS = {"quick": 8, "thorough": 16}
-TECHNIQUE = "resource-budget oracle (traced line events <= 2000 + 400*len(buffer)) over Hypothesis-mutated conformant responses, raw byte strings, exhaustive single-byte 00/FF walks and (thorough) atheris coverage-guided fuzzing per decoder"
+TECHNIQUE = "resource-budget oracle (traced line events <= 2000 + 400*len(buffer); 60 s stall monitor and 8 GiB address-space limit for work inside C code) over Hypothesis-mutated conformant responses, raw byte strings, exhaustive single-byte 00/FF walks and (thorough) atheris coverage-guided fuzzing per decoder"
 RULE = (
     "one case = (decoder, selector arguments, buffer); buffers are conformant responses with 1..4 overwritten "
     "byte runs (values 00, 01, FF, random; positions biased to headers where the length/count fields live), raw "
@@ -28,8 +28,8 @@ RULE = (
     "bytes or inside a descriptor header) or a raw buffer >= 64 bytes; distinct = distinct canonical JSON"
 )
 ASSUMPTIONS = [
-    "termination is judged by a step bound linear in the buffer size with fixed constants (2000 + 400 per byte, > 5x the largest well-formed cost measured); wall-clock time is never an oracle",
-    "memory is bounded through the step bound (each step allocates at most O(len))",
+    "termination is judged by a step bound linear in the buffer size with fixed constants (2000 + 400 per byte, > 5x the largest well-formed cost measured)",
+    "work inside C code (regular expressions, allocations) produces no line events: two coarse nets stand behind the step bound - a case that has not returned after 60 s of wall-clock time (typical: milliseconds) is reported as no_return by the parent process, which kills the shard; a decoder raising MemoryError under an 8 GiB address-space limit is reported as memory_exhausted. Nothing finer is concluded from time or memory",
     "returning or raising any ordinary exception within budget is a pass (the contract for ill-formed data is only 'terminates')",
 ]
 
